@@ -197,6 +197,11 @@ def clauseEq (name : String) (expected : List V) (impl : List V) : Clause :=
 def clauseP (name : String) (ok : Bool) (descr : String) : Clause :=
   { name := name, ok := ok, expected := descr }
 
+def slopeOfCode (v : V) : Option Classify.Slope :=
+  match v with
+  | .q r => if r == 0 then some .rising else if r == 1 then some .flat else if r == 2 then some .falling else none
+  | _ => none
+
 /-- the clauses demanded of the implementation's output `y` for the last `filter` call, from the
 configuration and the input history (which already includes the current input) only -/
 def specFilter (base : Nat) : St V → List (List V) → List V → List Clause
@@ -284,6 +289,17 @@ def specFilter (base : Nat) : St V → List (List V) → List V → List Clause
   | .peaks o _, h, y =>
     match pick o (peakIdx (Spec.peakAt (heads h))) with
     | some e => [clauseEq "C09.peaks" e y] | none => []
+  | .peaksSlopes o _, h, y =>
+    -- driven by slopes: a maximum exactly when the previous slope was rising and this one is falling, a minimum exactly
+    -- when the previous one was falling and this one is rising, whatever the sequence and wherever it starts
+    let codes := (heads h).filterMap slopeOfCode
+    if codes.length != h.length then [] else
+    let idx : Nat := match codes.reverse with
+      | .falling :: .rising :: _ => 0
+      | .rising :: .falling :: _ => 2
+      | _ => 1
+    match pick o idx with
+    | some e => [clauseEq "C09.peaks-from-slopes" e y] | none => []
   | .analyze l hp _ _, h, y =>
     if l.isEmpty then [] else
     [clauseEq "C07.analysis-convs" [Spec.firAt l (heads h), Spec.firAt hp (heads h)] y]
@@ -452,11 +468,6 @@ def mkInjected (kind : String) (kv : KV) : Option (St V) :=
   | _ => none
 
 /-! ### one line -/
-
-def slopeOfCode (v : V) : Option Classify.Slope :=
-  match v with
-  | .q r => if r == 0 then some .rising else if r == 1 then some .flat else if r == 2 then some .falling else none
-  | _ => none
 
 /-- branch / shape flags of one `filter` call, for the coverage report -/
 def stepFlags (before after : St V) (h : List (List V)) : List String :=
